@@ -22,6 +22,7 @@ from engines.c01 import parse_sfnt
 LEVEL = "exploration"
 ASSUMPTIONS = [
     "fonts = vendored corpus (TTC members, WOFF/WOFF2 unwrapped by loading), corpus TTX compiled with the tree under test, generated pool incl. hostile glyph names / name strings; XML written by other tools is not covered",
+    "ttx-cli unit: a bitmap location table (EBLC/CBLC) is selected together with its data table (EBDT/CBDT): its dump holds no offsets by format (they are recalculated when the data table is compiled), so merging it alone into a binary whose data table stays undecoded is not a dump the format supports; loca and Gloc, which fontTools keeps from the merge file, are selected alone",
     "free-text tables (name, CFF/CFF2 strings, meta, SVG, TSI*) whose bytes differ are compared by their canonical dump with XML whitespace collapsed, per the property statement",
 ]
 
@@ -318,6 +319,16 @@ class Programs(Unit):
         rec.nontrivial()
 
 
+def run_ttx(argv):
+    """What fontTools.ttx.main(argv) does - parseOptions then process - without main()'s last
+    stage, which logs any exception and turns it into sys.exit(1): here the exception itself
+    propagates, so a failure is reported with the fontTools frame it came from."""
+    from fontTools import ttx
+
+    jobs, options = ttx.parseOptions(list(argv))
+    ttx.process(jobs, options)
+
+
 class TtxCli(Unit):
     name = "ttx-cli"
     rule = ("the fonttools ttx command line on font files: every option set from {default, -s, -g, -i, -z extfile, --newline CRLF, --newline CR, -t <each table>, -x <each table> (then compiled with -m <original>), -d other directory, -o explicit name} "
@@ -342,13 +353,12 @@ class TtxCli(Unit):
             except Exception:
                 continue
             for t in tags:
-                yield [key, ["-t", t], t]
+                pair = {"EBLC": "EBDT", "CBLC": "CBDT"}.get(t)
+                yield [key, ["-t", t] + (["-t", pair] if pair in tags else []), t]
                 if tier == "thorough":
                     yield [key, ["-x", t], t]
 
     def check(self, case, rec):
-        from fontTools import ttx
-
         key, opts, tag = case
         data, idx = _FONTS[key]
         # the command line works on files: give it the font at its recompile fixed point, so
@@ -384,7 +394,7 @@ class TtxCli(Unit):
                 xpath = os.path.join(tmp, "named.ttx")
                 o = ["-o", xpath]
             before = snapshot_tree(tmp)
-            ttx.main(args + o + [fpath])
+            run_ttx(args + o + [fpath])
             if not os.path.exists(xpath):
                 rec.violation("ttx-cli:output-missing", "%s %s: expected dump at %s; tree: %s" % (key, opts, xpath, sorted(snapshot_tree(tmp))))
                 return
@@ -397,7 +407,7 @@ class TtxCli(Unit):
             if tag is not None:
                 cargs += ["-m", fpath]
                 rec.witness("-t/-m merge")
-            ttx.main(cargs + [xpath])
+            run_ttx(cargs + [xpath])
             back = open(os.path.join(tmp, "back" + ext.replace(".ttc", ".ttf")), "rb").read()
         finally:
             shutil.rmtree(tmp, ignore_errors=True)
